@@ -206,6 +206,21 @@ func (s *scriptSrc) Load(ctx context.Context) (map[string]any, error) {
 
 type cancelKey struct{}
 
+// barrierMissed counts racing Loads in which one loader never reached its first source while the other
+// was held there (code that serialises or coalesces Loads before the sources are read). On the code as it
+// is this never happens; when it does the barrier is only a scheduling aid (the outcome is judged against
+// both commit orders anyway), so after the first miss the wait drops from 2 s to 5 ms: a tree on which
+// every race misses must not turn a 15 s run into minutes.
+var barrierMissed atomic.Int64
+var barrierEver atomic.Bool
+
+func barrierWait() time.Duration {
+	if barrierEver.Load() {
+		return 5 * time.Millisecond
+	}
+	return 2 * time.Second
+}
+
 // staticSrc hands out the very same map on every Load, like config.TestSource and any source that
 // caches what it parsed. Load must not modify it: the next Load would start from the modified map.
 type staticSrc struct{ m map[string]any }
@@ -667,7 +682,7 @@ func (r *runT) runLoad(l *loadT) (o loadObs) {
 			arrived <- struct{}{}
 			select {
 			case <-release:
-			case <-time.After(2 * time.Second):
+			case <-time.After(barrierWait()):
 			}
 		}
 		var errB error
@@ -682,7 +697,10 @@ func (r *runT) runLoad(l *loadT) (o loadObs) {
 			for n := 0; n < 2; n++ {
 				select {
 				case <-arrived:
-				case <-time.After(2 * time.Second):
+				case <-time.After(barrierWait()):
+					barrierMissed.Add(1)
+					barrierEver.Store(true)
+					n = 2 // the other loader is not coming either way
 				}
 			}
 		}
@@ -1048,6 +1066,11 @@ func emit(id string, c caseT, st *hx.Stats) string {
 		}
 		if races > 0 {
 			st.Count("with_two_racing_loads")
+		}
+		if n := barrierMissed.Swap(0); n > 0 {
+			for ; n > 0; n-- {
+				st.Count("racing_load_never_reached_its_sources")
+			}
 		}
 	}
 	return l.String() + hx.Comment(c)
